@@ -168,6 +168,8 @@ def pre_manifests_all(case):
 
 
 def match_d29(case, kind, detail):
+    if kind == 'internal':
+        return detail[1:3] == ['Internal', 'AssertionError'] and bool(d29_dirs(case))
     return _match_near(d29_dirs(case), kind, detail)
 
 
